@@ -62,23 +62,40 @@ package nsqd
 //@   onreturn lSendClient := client
 //@   onreturn lSendErr := result
 
-// bufferPoolGet / bufferPoolPut wrap a sync.Pool of *bytes.Buffer (pool New never returns nil). Still trusted (sync.Pool is outside
-// the subset); (round 4, area A) the calls are recorded in free ghosts (declared in zz_contracts_flow_verif.go) so that
-// writeMessageToBackend can state who owns the buffer while its bytes are in use.
+// bufferPoolGet / bufferPoolPut wrap a sync.Pool of *bytes.Buffer. (round 5, area J) NO LONGER TRUSTED: both bodies are verified against the
+// pool protocol stated on sync.Pool.Get / Put themselves (lib/trusted/r5J.spec, scoped to this package): every value handed to Put must be a
+// non-nil *bytes.Buffer (an OBLIGATION at the Put below, the only Put of the package), and the constructor `bp.New` (init#1$1, verified below) returns one;
+// in return Get may assume that what it hands out is a non-nil *bytes.Buffer (so the type assertion cannot fail). (round 4, area A) the calls are
+// recorded in free ghosts (declared in zz_contracts_flow_verif.go) so that writeMessageToBackend can state who owns the buffer while its bytes are in use.
 //@ func bufferPoolGet() *bytes.Buffer
-//@   trusted
+//@   props C07 C01
 //@   nochan
 //@   ensures result != nil
+//@   ensures[from-the-pool] r5JPoolGets == old(r5JPoolGets) + 1
+//   every other free ghost is left alone (as under the former trusted stub, whose frame was taken as complete)
+//@   keeps gMarshalArg, gMarshalErr, gMarshalOut, gMarshals, gQuiesced, pumpKicked, pumpKicks, r4ABytesBuf, r4ABytesData, r4APoolPuts, r4APutBuf, r4BExitTestChan, r4BExitTestHeld, r4BExitTestSaw, r4BExitTests, r4CLoaded, r5JBufResetBuf, r5JBufResets, r5JPoolPutOn, r5JPoolPutSawResets, r5JPoolPutVal, r5JPoolPuts, r5JWgAddOn, r5JWgAddSum, r5JWgAdds, r5JWgDoneOn, r5JWgDones, r5JWgLastOpDone, r5JWrapAddsAtSpawn, r5JWrapSpawns, r5JLogOutputs, r5JLogOutputOn, r5JLogOutputDepth
 //@   modifies r4APoolGets, r4AGotBuf, r4AGotAt
 //@   onreturn r4APoolGets := r4APoolGets + 1
 //@   onreturn r4AGotBuf := result
 //@   onreturn r4AGotAt := wN
+//   [non-nil-buffer]: b.Reset() on a nil buffer panics (every caller passes what bufferPoolGet returned). [reset-before-put]: the buffer goes back EMPTY
+//   (the next user appends to it). [back-to-the-pool]: exactly one Put, of this buffer, into bp.
 //@ func bufferPoolPut(b *bytes.Buffer)
-//@   trusted
+//@   props C07 C01
 //@   nochan
+//@   requires[non-nil-buffer] b != nil
+//@   ensures[back-to-the-pool] r5JPoolPuts == old(r5JPoolPuts) + 1 && dyntype(r5JPoolPutVal) == typetag("*bytes.Buffer") && unbox(r5JPoolPutVal, "*bytes.Buffer") == b
+//@   ensures[reset-before-put] r5JBufResets == old(r5JBufResets) + 1 && r5JBufResetBuf == b && r5JPoolPutSawResets == r5JBufResets
+//@   keeps gMarshalArg, gMarshalErr, gMarshalOut, gMarshals, gQuiesced, pumpKicked, pumpKicks, r4ABytesBuf, r4ABytesData, r4AGotAt, r4AGotBuf, r4APoolGets, r4BExitTestChan, r4BExitTestHeld, r4BExitTestSaw, r4BExitTests, r4CLoaded, r5JPoolGetOn, r5JPoolGets, r5JWgAddOn, r5JWgAddSum, r5JWgAdds, r5JWgDoneOn, r5JWgDones, r5JWgLastOpDone, r5JWrapAddsAtSpawn, r5JWrapSpawns, r5JLogOutputs, r5JLogOutputOn, r5JLogOutputDepth
 //@   modifies r4APoolPuts, r4APutBuf
 //@   onreturn r4APoolPuts := r4APoolPuts + 1
 //@   onreturn r4APutBuf := b
+// The pool's constructor (bp.New, set in init): a new, non-nil *bytes.Buffer - the other half of the pool protocol.
+//@ func init#1$1() interface{}
+//@   props C07 C01
+//@   nochan
+//@   ensures[pool-protocol] dyntype(result) == typetag("*bytes.Buffer") && unbox(result, "*bytes.Buffer") != nil && fresh(unbox(result, "*bytes.Buffer"))
+//@   modifies
 
 // SendMessage: the call-order clauses of the delivery pump are its preconditions.
 //  [deliver-guard]          the most recent readiness check was for this connection, answered true and has
